@@ -482,7 +482,7 @@ META = {  # frozen instantiations of the zero-sized type parameters, confirmed b
 
 def check_layout(F, rep, tier):
     """Generate const-assert witnesses for every `unsafe impl ArrayCast` on a struct of the crate and let rustc decide them."""
-    wdir = os.path.join(VERIF, "witness")
+    wdir = os.path.join(VERIF, "witness") if not facts.LANE else os.path.join(facts.CACHE, "lane" + facts.LANE, "witness")
     src = os.path.join(wdir, "src")
     os.makedirs(src, exist_ok=True)
     lines = ["// generated by rules/c04.py from the facts of /repo's current tree - do not edit",
@@ -560,8 +560,8 @@ def check_layout(F, rep, tier):
     lock = os.path.join(facts.REPO, "Cargo.lock")
     if os.path.exists(lock):
         shutil.copy(lock, os.path.join(wdir, "Cargo.lock"))
-    env = dict(os.environ, CARGO_TARGET_DIR=os.path.join(facts.CACHE, "tgt", "witness"), CARGO_NET_OFFLINE="true", RUSTFLAGS="-Awarnings")
-    with facts.Lock("witness"):
+    env = dict(os.environ, CARGO_TARGET_DIR=os.path.join(facts.CACHE, "tgt", "witness" + facts.LANE), CARGO_NET_OFFLINE="true", RUSTFLAGS="-Awarnings")
+    with facts.Lock("witness" + facts.LANE):
         r = subprocess.run(["cargo", "+nightly", "check", "--offline", "-q"], cwd=wdir, env=env, stdout=subprocess.PIPE, stderr=subprocess.STDOUT, text=True)
     ok = r.returncode == 0
     detail = "%d const assertions over %d ArrayCast structs x %d component types + wrappers: compiled" % (n_assert, n_impl, len(COMPONENTS))
